@@ -173,12 +173,14 @@ def doEcho (noEcho : Bool) (d : OptDecl) (st : St) : St :=
 /-! ## lookup -/
 
 /-- The second loop of `FindOption(name, wildcardvalues = true)`: visits the options in set
-order; per option first the inline synonyms (case-insensitive), then `wc_match` (case-sensitive;
-on success it returns the body that `wc_match` records). -/
+order; per option first the inline synonyms (case-insensitive; for a wildcard option a hit means
+"unknown", as for its name, since ampl/mp 084cb26), then `wc_match` (case-sensitive; on success it
+returns the body that `wc_match` records). -/
 def findLoop (key : Bytes) : Table → Option (OptDecl × Option Bytes)
   | [] => none
   | d :: ds =>
-    if d.syns.any (fun syn => ciEq key syn) then some (d, none)
+    if d.syns.any (fun syn => ciEq key syn) then
+      (if d.isWildcard then none else some (d, none))   -- ampl/mp 084cb26: a wildcard pattern itself is not a key
     else
       match wcMatch d.headTails key with
       | some body => some (d, some body)
